@@ -375,4 +375,63 @@ func c19history(tr *lib.Trace, r *rand.Rand, h int) {
 			}
 		}
 	}
+
+	// ---- a time that is still in the future when it is first asked for and in the past later:
+	// Asof(T) [future: current state, must not be remembered], more persists before T,
+	// then Asof(T) again once T has passed: the latest state with time <= T
+	if !backwards && r.Intn(4) == 0 {
+		T := time.Now().UnixMilli() + 60
+		rtB := db.NewReadTran()
+		var ret int64
+		msg := lib.Catch(func() { ret = rtB.Asof(T) })
+		if msg != "" || time.Now().UnixMilli() >= T {
+			tr.Count("future-then-past=skipped")
+			return
+		}
+		tr.Q("new", "ok")
+		tr.Qf(fmt.Sprintf("%d %d %d %d", ret, rtB.off, rtB.asof, c19rows(rtB)), "asof %d t", T)
+		more := 1 + r.Intn(3)
+		for p := more; p > 0; p-- {
+			addRows()
+			st := db.persist(&execPersistSingle{}, false)
+			t := int64(binary.BigEndian.Uint64(store.Data(st.Off)[len(magic1):]))
+			c := c19cand{off: st.Off, t: t, rows: rows, valid: true}
+			cands = append(cands, c)
+			valid = append(valid, c)
+		}
+		for time.Now().UnixMilli() <= T+1 {
+			time.Sleep(5 * time.Millisecond)
+		}
+		cur = db.GetState()
+		sb.Reset()
+		for i, c := range cands {
+			if i > 0 {
+				sb.WriteByte(',')
+			}
+			fmt.Fprintf(&sb, "%d:%d:%d", c.off, c.t, c.rows)
+		}
+		tr.Qf(fmt.Sprintf("ok %d", len(cands)), "reset %d %d %d %d %s",
+			store.Size(), cur.Off, cur.Asof, rows, sb.String())
+		rt2 := db.NewReadTran()
+		var ret2 int64
+		if msg := lib.Catch(func() { ret2 = rt2.Asof(T) }); msg != "" {
+			tr.Qf("!panic", "asof %d f", T)
+			tr.Fail("asof-panic", fmt.Sprintf("history %d: Asof(%d) after it was first requested as a future time: %s", h, T, msg))
+			return
+		}
+		n2 := c19rows(rt2)
+		tr.Qf(fmt.Sprintf("%d %d %d %d", ret2, rt2.off, rt2.asof, n2), "asof %d f", T)
+		e := 0
+		for i, c := range valid {
+			if c.t <= T {
+				e = i
+			}
+		}
+		if rt2.off != valid[e].off || n2 != valid[e].rows || ret2 != valid[e].t {
+			tr.Fail("asof-stale-after-future-request", fmt.Sprintf(
+				"history %d states(off:time:rows)=%s: Asof(%d) was first requested while that time was in the future, then %d more states were persisted before it; asked again after it had passed it shows off=%d time=%d rows=%d, expected the latest state at or before it: off=%d time=%d rows=%d",
+				h, sb.String(), T, more, rt2.off, ret2, n2, valid[e].off, valid[e].t, valid[e].rows))
+		}
+		tr.Count("future-then-past=done")
+	}
 }
